@@ -311,7 +311,7 @@ C12_ENTRY = dict(
                "destructor the linked list changes only by a step of the mutex holder, by exactly one push_front / push_back "
                "/ erase of a sequential reference list; the list equals the logged mutations executed one after the other on "
                "an empty `List`, logged in acquisition order with at most one per critical section, and a push that reaches "
-               "its unlock has logged exactly its own. Tie: trace acceptance of the unmodified headers (every edge covered, "
+               "its unlock (an erase of a not yet erased node after its unlinking store) has logged exactly its own. Tie: trace acceptance of the unmodified headers (every edge covered, "
                "executable invariants on every state), a trace-level oracle for order / duplicates / completeness / mutual "
                "exclusion that does not use the model, and a sequential differential: single-thread op sequences "
                "(push_front/back, emplace_front/back incl. throwing constructors, erase by index / by value, full "
@@ -321,10 +321,7 @@ C12_ENTRY = dict(
                "interleaved cells (C07 carries the memory-model half), shim + tap + allocator + scheduler + driver glue. "
                "insert / emplace(pos) / clear / reverse iteration are declared but not defined in the header: outside.",
     trusted_base=RCU_TRUST, assumptions=RCU_ASSUME,
-    partial=["'the final contents equal those of some sequential execution of the same operations' is proved at the level of "
-             "nodes: the log holds one entry per linearisation store, tagged with its critical section; that a returning "
-             "erase of a not yet erased node logs exactly one entry is visible in the model's control flow (eDel/fresh -> "
-             "eUnl) but not stated as a separate theorem"],
+    partial=[],
 )
 
 PARTS = {
